@@ -6,7 +6,8 @@ tree (any contiguous group of <= split_every partials merged at each step) the p
 nan-variants, argmin / argmax with and without axis, count_nonzero, ptp, topk) x axis subsets x keepdims x split_every (2, 3, a
 per-axis dict, default) over int / bool / NaN-carrying sources of 1 to 3 dimensions, computes the NumPy denotation in NdArray.tla,
 and every behaviour is replayed under EVERY chunk grid of its source (up to the variant cap); slices applied to reductions and
-reductions applied to sliced / rechunked / transposed operands are covered by two composition corpora."""
+reductions applied to sliced / rechunked / transposed operands are covered by two composition corpora; reductions over the
+window axis of sliding_window_view (whose kernels are substituted depending on the chunking) under every chunk grid by a third."""
 from __future__ import annotations
 
 from .. import progcheck, replay, tlc
@@ -15,15 +16,15 @@ from ..modelcheck import add_models
 
 def plans(tier):
     if tier == "quick":
-        return [("d1-red", 12, 2), ("d1-reduce-1d7", 64, 2), ("d2-red-index", 2, 2), ("d2-index-red", 2, 4)]
-    return [("d1-red", 64, 1), ("d1-reduce-1d7", 64, 1), ("d1-reduce-2d", 32, 1), ("d2-red-index", 4, 1), ("d2-index-red", 4, 1)]
+        return [("d1-red", 12, 2), ("d1-reduce-1d7", 64, 2), ("d2-red-index", 2, 2), ("d2-index-red", 2, 4), ("d1-win-q", 128, 3)]
+    return [("d1-red", 64, 1), ("d1-reduce-1d7", 64, 1), ("d1-reduce-2d", 32, 1), ("d2-red-index", 4, 1), ("d2-index-red", 4, 1), ("d1-win", 128, 2)]
 
 
 def run(chk):
     rd = tlc.new_rundir("C18")
     try:
         add_models(chk, ["TreeReduce:all-trees"])
-        for name, maxvar, stride in plans(chk.tier):
+        for name, maxvar, stride in progcheck.dev_filter(plans(chk.tier)):
             kw = dict(progcheck.CORPORA[name])
             keep = kw.pop("keep", None)
             kw.pop("observe_all", None)
@@ -32,6 +33,8 @@ def run(chk):
             if keep is not None:
                 behs = [b for b in behs if keep(b)]
             picked = progcheck.stride_sample(behs, stride, chk.seed)
+            if name == "d1-red":
+                for_selftest = picked
             out = replay.run_corpus(picked, observers=(), max_variants=maxvar, seed=chk.seed)
             if out.machinery:
                 raise tlc.MachineryError(f"spec/NumPy disagreement ({len(out.machinery)}): {out.machinery[0]}")
@@ -49,7 +52,7 @@ def run(chk):
                 chk.nontrivial(("p", str(b["prog"])))
             if picked:
                 chk.sample({"prog": picked[len(picked) // 2]["prog"], "expect_last": picked[len(picked) // 2]["env"][-1]})
-        n, hit = selftest(picked, chk.seed)
+        n, hit = selftest(for_selftest, chk.seed)
         if n == 0 or hit == 0:
             raise tlc.MachineryError(f"binding self-test failed: {hit} of {n} mutant programs detected")
         chk.part("selftest:split_every-drops-a-block", programs=n, detected=hit, passed=True)
